@@ -50,7 +50,7 @@ def cases(tier, seed):
         out.append(dict(kind="invalidate", seed=seed * 1000003 + 830000 + i, idx=i))
     for i in range(n[2]):
         out.append(dict(kind="recover", seed=seed * 1000003 + 860000 + i))
-    for i in range({"quick": 128, "thorough": 3200}[tier]):
+    for i in range({"quick": 160, "thorough": 4000}[tier]):
         out.append(dict(kind="invalidate_group", seed=seed * 1000003 + 890000 + i, idx=i))
     return out
 
@@ -613,7 +613,35 @@ def run_invalidate_group(spec, res):
         if not out0 or hasattr(out0[0], "check"):
             res.inconclusive.append("the healthy first exchange with the coordinator failed")
             return
-        variant = ("plain", "plain", "refresh_without_coordinator", "coordinator_readdressed")[(i // 16) % 4]
+        variant = ("plain", "plain", "refresh_without_coordinator", "coordinator_readdressed",
+                   "retry_from_the_errback")[(i // 16) % 5]
+        if variant == "retry_from_the_errback":
+            # a lookup that fails, and an application that asks again from inside the errback: the second question is
+            # a new lookup on the wire, not the old answer handed out once more
+            res.hit("group_lookup_retried_from_errback")
+            g2 = group + "-r"
+            cl.faults.add(dict(api="FindCoordinator", nth=[0], after=w.clock.seconds(),
+                               action=dict(kind="error", code=rng.choice((15, 16)))))
+            h = len(cl.history)
+            outs = []
+
+            def again(f):
+                d2 = client.load_coordinator_for_group(g2)
+                d2.addBoth(outs.append)
+                return None
+            client.load_coordinator_for_group(g2).addCallbacks(outs.append, again)
+            w.run(until=w.clock.seconds() + 4.0, stop=lambda: bool(outs))
+            looks = [e for e in cl.history[h:] if "req" in e and e["api"] == "FindCoordinator" and
+                     e["req"].get("group") == g2]
+            if len(looks) < 2 or not outs or hasattr(outs[0], "check"):
+                res.violate("coordinator/lookup-repeated-from-the-errback-not-sent", "a coordinator lookup failed and "
+                            "was asked again from inside the errback: %d lookup request(s) reached a broker and the "
+                            "second question ended as %r" % (len(looks), outs[0] if outs else None))
+            res.ob("repeated_lookup_is_a_new_lookup")
+            eat(client.close())
+            w.run(until=w.clock.seconds() + 1.0)
+            res.n_sub += 1
+            return
         if variant == "refresh_without_coordinator":
             # a full refresh whose answer does not list the coordinator's broker (it is restarting): its client is
             # closed, but the next group request must still get to the coordinator the client knows
